@@ -122,10 +122,22 @@ def run(tier, seed, mutant=None, only_validate=False):
                 for p in ((1, 2) if tier == "quick" else (1, 2, 3)) for c in ("future", "sync")]
         # function evaluations may raise (logged and dropped: stop_on_exception=False)
         cfgs += [{"kind": "map_async", "parallelism": 2, "cons": ["future"], "max_elems": ne, "falsy": {"none": 2, "zero": 3}}]
+        # callbacks one at a time: emissions and function completions fall between two callbacks of one loop iteration
+        import itertools
+        import random as _random
+        _rng = _random.Random(seed)
+        for p in (1, 2):
+            # a saturated node, then every sequence of {emit, finish the oldest function, run one callback}
+            pre = "e1 " * (p + 1) + "s s s s "
+            L = 5 if tier == "quick" else 6
+            fine = [pre + " ".join(q) for q in itertools.product(("e1", "f", "t"), repeat=L)]
+            fine += [pre + " ".join(_rng.choice(("e1", "f", "t", "t")) for _ in range(_rng.randint(L + 1, L + 4)))
+                     for _ in range(150 if tier == "quick" else 1500)]
+            cfgs.append({"kind": "map_async", "parallelism": p, "cons": ["sync"], "max_elems": ne + 1, "fine": True, "schedules": fine})
         cfgs += [{"kind": "map_async", "parallelism": p, "cons": ["future"], "max_elems": ne, "faults": True}
                  for p in ((1, 2) if tier == "quick" else (1, 2, 3))]
         amod.node_engine(res, work, node="map_async", trace_module="AsyncMapAsyncTrace", cfgs=cfgs,
-                         consts_of=lambda c: dict(NE=ne, P=c["parallelism"], SyncCons=c["cons"][0] == "sync", MaxOut=ne, Legacy=False, EarlySlot=True, Faults=True, ReleaseFailed=False),
+                         consts_of=lambda c: dict(NE=c["max_elems"], P=c["parallelism"], SyncCons=c["cons"][0] == "sync", MaxOut=c["max_elems"], Legacy=False, EarlySlot=True, Faults=True, ReleaseFailed=False),
                          adapt=adapt, attribute=attribute, seed=seed, depth=8 if tier == "quick" else 10,
                          limit=250 if tier == "quick" else 2500, nrandom=250 if tier == "quick" else 2500, maxlen=18,
                          default_prop="C02", mutant=mutant,
